@@ -59,7 +59,7 @@ def _(self):
 
 
 # ------------------------------------------------------------------ State helpers (assumed: liquer.state is outside this property's FUC list)
-@assumed("liquer.state.State.clone", params=dict(self=ST), returns=ST)
+@assumed("liquer.state.State.clone", params=dict(self=ST), returns=ST, returns_fresh=True)
 def _(self):
     ensures(fresh_ref(result) and result.data == self.data and result.metadata == self.metadata and not result.metadata_only,
             "an equal, independent state")
